@@ -19,6 +19,7 @@
     sdnil,h               Stopped() returned a nil channel        rng  Running() seen closed       cx  Run ctx cancelled
     wce                   the self-close watcher's Close returned an error (logged by the router)
     qs                    quiescence: the goroutine census ran and found no goroutine of the router / handlers / decorators
+    scd                   Close called on a router-level subscriber decorator that fails before it reaches the wrapped subscriber
     crash                 the (isolated) harness process died: an unrecovered panic in a goroutine of the router
     fin,stuck,left,snap   end: a wait ran into the liveness bound / goroutines left / final settlement
 -/
@@ -34,7 +35,7 @@ def knownKinds : List (String × Nat) :=
   [("ahc",1),("ah",2),("ahp",1),("rc",1),("rr",3),("rhc",1),("rhr",2),("sub",1),("em",2),("ea",2),("hs",2),("hg",2),("he",3),
    ("pb",2),("pc",1),("sc",1),("scr",1),("cc",1),("cr",3),("stp",1),("stpr",2),("st",1),("sd",1),("sdnil",1),("rng",0),
    ("cx",0),("go",0),("qs",0),("sube",1),("nst",1),("sgo",0),("rel",0),("wce",0),("fin",3),("kr",2),("ks",2),("kp",2),("kb",2),("kS",0),("kL",0),("kR",0),
-   ("kh",1),("kg",1),("kw",0),("kd",1),("kl",0),("crash",0)]
+   ("kh",1),("kg",1),("kw",0),("kd",1),("kl",0),("crash",0),("scd",0)]
 
 def numOf (f : String) : Nat :=
   match f.toNat? with
@@ -165,10 +166,16 @@ def c06ClosesAll (evs : Array Ev) : String := Id.run do
   -- quiescence = the harness's goroutine census ran and found nothing left (`qs`); without it nothing is demanded here
   match firstIdx evs (is "qs"), firstIdx evs (is "kS") with
   | some _, some sg =>
+    -- with a failing outer decorator the Close calls stop there (`scd`): one per handler that needs closing
+    let outer := anyEv evs (is "scd")
+    let mut need := 0
     for h in handlersOf evs "sub" do
       let endedBefore := anyBefore evs sg (isH "stp" h) || anyBefore evs sg (is "cx")
       if anyBefore evs sg (isH "kg" h) && !endedBefore then
-        if countAll evs (isH "sc" h) != 1 then return "violated:subscriber_not_closed_by_router_close"
+        need := need + 1
+        if !outer && countAll evs (isH "sc" h) != 1 then return "violated:subscriber_not_closed_by_router_close"
+    if outer && countAll evs (is "scd") < need then return "violated:subscriber_not_closed_by_router_close"
+    for h in handlersOf evs "sub" do
       if anyEv evs (fun a => a.k == "ah" && a.n0 == h && a.s1 == "p") then
         if countAll evs (isH "pc" h) != 1 then return "violated:publisher_not_closed_at_quiescence"
     return "ok"
@@ -181,7 +188,13 @@ def c06Calls (evs : Array Ev) : String := Id.run do
     let e := evs[i]!
     if e.k == "fin" then
       if e.s.getD 0 "" != "0" then return "violated:stuck(a_call_did_not_return_within_the_liveness_bound)"
-      if e.n1 > 0 then return "violated:router_goroutine_remains"
+      if e.n1 > 0 then
+        -- goroutines of the router are left at the end: name the handler Close did not end, if that is the reason
+        if anyEv evs (is "kS") then
+          for h in handlersOf evs "sub" do
+            if anyEv evs (fun a => a.k == "ah" && a.n0 == h && a.s1 == "p") && !anyEv evs (isH "pc" h) then
+              return "violated:handler_not_ended_by_close(its_loop_still_receives,publisher_never_closed)"
+        return "violated:router_goroutine_remains"
     if (e.k == "cr" || e.k == "rr") && e.s1 == "panic" then return "violated:close_or_run_panicked"
     if e.k == "crash" then return "violated:unrecovered_panic_in_a_router_goroutine"
     if e.k == "cc" then
